@@ -672,10 +672,52 @@ const CORNER_TEXT: &[(&str, &str)] = &[
     ("f64", "1.5"), ("f64", ""), ("f64", "-"), ("f64", "12345678"), ("f64", "+1"), ("ts", "0000-01-01 00:00:00"), ("ts", "0000-01-01 00:00:00 BC"),
 ];
 
+fn boundary_batches() -> Vec<(&'static str, Vec<DataValue>)> {
+    let f = |b: u64| DataValue::Float64(F64::from(f64::from_bits(b)));
+    let mut out: Vec<(&'static str, Vec<DataValue>)> = vec![];
+    // NaN (quiet, signalling, negative, payload), +-0, +-inf, subnormals, +-1, extremes
+    let mut fl: Vec<DataValue> = F64_SPECIAL.iter().map(|b| f(*b)).collect();
+    fl.push(DataValue::Null);
+    out.push(("f64", fl));
+    out.push(("f64", vec![f(0x7ff8_0000_0000_0000), f(0x7ff8_0000_0000_0000), f(0xfff8_0000_0000_0001), f(0x7ff0_0000_0000_0000),
+                          f(0x3ff0_0000_0000_0000), f(0), f(0x8000_0000_0000_0000), DataValue::Null]));
+    out.push(("bool", vec![DataValue::Bool(true), DataValue::Bool(false), DataValue::Null, DataValue::Bool(true), DataValue::Bool(false)]));
+    out.push(("i16", [i16::MIN, i16::MIN + 1, -1, 0, 1, i16::MAX - 1, i16::MAX, 0].iter().map(|x| DataValue::Int16(*x)).chain([DataValue::Null]).collect()));
+    out.push(("i32", [i32::MIN, i32::MIN + 1, -1, 0, 1, i32::MAX - 1, i32::MAX, 0].iter().map(|x| DataValue::Int32(*x)).chain([DataValue::Null]).collect()));
+    out.push(("i64", [i64::MIN, i64::MIN + 1, -1, 0, 1, i64::MAX - 1, i64::MAX, 0].iter().map(|x| DataValue::Int64(*x)).chain([DataValue::Null]).collect()));
+    out.push(("str", ["", "a", "ab", "b", "A", "é", "z", " ", "\u{10000}", "\u{ffff}", "a", "a\u{0}"].iter().map(|x| DataValue::String((*x).into())).chain([DataValue::Null]).collect()));
+    let max96: u128 = (1u128 << 96) - 1;
+    out.push(("dec", vec![
+        DataValue::Decimal(mk_dec(false, 10, 1)), DataValue::Decimal(mk_dec(false, 100, 2)), DataValue::Decimal(mk_dec(false, 1, 0)),
+        DataValue::Decimal(mk_dec(true, 0, 5)), DataValue::Decimal(mk_dec(false, 0, 0)), DataValue::Decimal(mk_dec(true, 1, 28)),
+        DataValue::Decimal(mk_dec(false, max96, 0)), DataValue::Decimal(mk_dec(true, max96, 0)), DataValue::Decimal(mk_dec(false, max96, 28)),
+        DataValue::Decimal(mk_dec(false, 15, 1)), DataValue::Decimal(mk_dec(false, 1500, 3)), DataValue::Null,
+    ]));
+    out.push(("date", [i32::MIN, -96_465_292, -719_529, -719_528, -1, 0, 11_016, 2_932_896, 2_932_897, 95_026_236, i32::MAX, 0]
+        .iter().map(|x| DataValue::Date(Date::new(*x))).chain([DataValue::Null]).collect()));
+    out.push(("ts", [i64::MIN, -1, 0, 1, 999_999, 1_000_000, 946_684_800_000_000, i64::MAX, 0]
+        .iter().map(|x| DataValue::Timestamp(Timestamp::new(*x))).chain([DataValue::Null]).collect()));
+    out.push(("iv", vec![
+        DataValue::Interval(mk_interval(0, 0, 0)), DataValue::Interval(mk_interval(-1, 5, 0)), DataValue::Interval(mk_interval(0, -5, 0)),
+        DataValue::Interval(mk_interval(0, 0, -1)), DataValue::Interval(mk_interval(i32::MIN, 0, 0)), DataValue::Interval(mk_interval(i32::MAX, i32::MAX, i32::MAX)),
+        DataValue::Interval(mk_interval(0, 0, 0)), DataValue::Null,
+    ]));
+    out.push(("blob", vec![
+        DataValue::Blob(vec![].into()), DataValue::Blob(vec![0u8].into()), DataValue::Blob(vec![0u8, 0].into()), DataValue::Blob(vec![0xffu8].into()),
+        DataValue::Blob(vec![0x7fu8].into()), DataValue::Blob(vec![0x80u8].into()), DataValue::Blob(vec![0x5cu8, 0x27].into()), DataValue::Blob(vec![0u8].into()), DataValue::Null,
+    ]));
+    out.push(("vec", vec![
+        DataValue::Vector(Vector::new(vec![f64::NAN, 0.0])), DataValue::Vector(Vector::new(vec![f64::NAN, -0.0])),
+        DataValue::Vector(Vector::new(vec![f64::INFINITY, 1.0])), DataValue::Vector(Vector::new(vec![-0.0, f64::NAN])),
+        DataValue::Vector(Vector::new(vec![0.0, f64::from_bits(0xfff8_0000_0000_0001)])), DataValue::Vector(Vector::new(vec![1.0, 2.0])),
+    ]));
+    out
+}
+
 fn gen_requests(tier: &str, out: &str) {
     let mut r = Rng::from_env();
     let thorough = tier == "thorough";
-    let (n_cmp, n_disp, n_parse, n_sql) = if thorough { (1_000_000, 300_000, 300_000, 2000) } else { (9000, 5000, 5000, 39) };
+    let (n_cmp, n_disp, n_parse, n_sql) = if thorough { (1_000_000, 300_000, 300_000, 2000) } else { (9000, 5000, 5000, 117) };
     let mut s = String::new();
     for i in 0..n_cmp {
         let ty = TYPES[i % TYPES.len()];
@@ -726,6 +768,12 @@ fn gen_requests(tier: &str, out: &str) {
             }
             s += &format!("parse {} {}\n", ty, hex_or_dash(t.as_bytes()));
         }
+    }
+    // boundary batches: every run exercises the comparison kernels / ORDER BY / GROUP BY / joins
+    // on the special values of each type, whatever the seed (NaN payloads, -0.0, +-inf, twins of
+    // different representation, extremes), before the random batches
+    for (ty, vals) in boundary_batches() {
+        s += &format!("sql {} {}\n", ty, vals.iter().map(enc).collect::<Vec<_>>().join(" "));
     }
     for i in 0..n_sql {
         let sql_types: Vec<&str> = TYPES.iter().copied().filter(|t| *t != "tstz").collect();
